@@ -74,6 +74,39 @@ class Gate:
         self._val[name] = r
         return r
 
+    def field_roles(self):
+        """board/state field -> role of the gate it belongs to"""
+        if "field_roles" not in self._stage:
+            m = {self.fld["halfmove_clock"]: "half", self.fld["fullmove_number"]: "full", self.fld["pinned"]: "derived",
+                 self.fld["checkers"]: "derived"}
+            for key, role in (("en_passant", "ep"), ("castle_rights", "castling")):
+                m[self.fld[key]] = role
+            for fl in self.roles.state_fields:
+                if fl not in m and fl != self.roles.hash_field:
+                    m[fl] = "board"
+            self._stage["field_roles"] = m
+        return self._stage["field_roles"]
+
+    def validator_reads(self, name):
+        """roles whose fields a validator reads (transitively): its verdict is about the board as it stands when it runs"""
+        key = ("reads", name)
+        if key not in self._stage:
+            acc = transitive_field_access(self.f, [name], kinds=("read", "ref"))
+            fr = self.field_roles()
+            self._stage[key] = {fr[fl] for (adt, fl) in acc if adt in (B, self.roles.inner_ty) and fl in fr}
+        return self._stage[key]
+
+    def stage_reads(self, name):
+        """what the validators a stage runs read"""
+        key = ("sreads", name)
+        if key not in self._stage:
+            out = set()
+            for k in reachable_bodies(self.f, [name]):
+                if k != name and self.validator_role(k) is not None and not self.is_stage(k):
+                    out |= self.validator_reads(k)
+            self._stage[key] = out
+        return self._stage[key]
+
     def stage_roles(self, name):
         """roles a `&mut Board` stage may write (transitively)"""
         if name in self._stage:
@@ -416,6 +449,22 @@ class Gate:
                               "%s can return Ok after writing the %s part of the state without a passed %s validator after the last such write (timeline: %s)"
                               % (name.rsplit("::", 1)[-1], r, r, [(k, sorted(rs), lab) for i, k, rs, lab in tl]), loc(b),
                               sample={"constructor": tag, "role": r, "validated by": vs[:1]})
+            # a validator's verdict stands for the finished board only if nothing it read is written afterwards (a stage
+            # moved behind a validator that reads what the stage computes leaves that validator looking at a blank)
+            top_ = p.events[0].fn.split("::{closure")[0] if p.events else None
+            for e_ in p.events:
+                if e_.kind != "call" or (e_.depth != 0 and not (top_ and e_.fn.startswith(top_ + "::{closure"))):
+                    continue
+                if self.is_stage(e_.name):
+                    rd, lab_ = (self.stage_reads(e_.name) if self.stage_validated(e_.name) and self.call_succeeded(p, e_) else set()), e_.name.rsplit("::", 1)[-1]
+                elif self.validator_role(e_.name) is not None and any(c[0] == e_.ret and c[1] == 1 for c in p.conds):
+                    rd, lab_ = self.validator_reads(e_.name), e_.name.rsplit("::", 1)[-1]
+                else:
+                    continue
+                late = sorted({r_ for i, k, rs, lb in tl if k == "W" and i > e_.idx + 0.5 for r_ in rs if r_ in rd})
+                ctx.check(not late, "%s:gate:fresh-inputs:%s" % (tag, lab_),
+                          "%s validates in %s and writes the %s part of the state, which that validation reads, afterwards: the verdict was about an unfinished board"
+                          % (name.rsplit("::", 1)[-1], lab_, late), loc(b), sample={"constructor": tag, "validated in": lab_, "reads": sorted(rd)} if n == 1 else None)
             ctx.check(set(ROLES) <= written, "%s:writes-all-roles" % tag,
                       "%s returns Ok without establishing %s" % (name.rsplit("::", 1)[-1], sorted(set(ROLES) - written)), loc(b))
             val_roles = vset if val_roles is None else (val_roles & vset)
